@@ -91,6 +91,41 @@ Theorem c17_pages_unfixed_refuted :
 Proof. exact pages_unfixed_refuted. Qed.
 Print Assumptions c17_pages_unfixed_refuted.
 
+(* reading stored output page by page: a valid UTF-8 log read in pages of >= 4 bytes (the widest
+   character), each page starting where the previous one said it ended (offset + bytes), comes back
+   exactly — the page texts concatenate to the log and the byte counts add up to its length *)
+Theorem c17_pages_reassemble : forall (file : bytes) (maxb : N) (fuel : nat),
+  utf8_ok file = true -> 4 <= maxb -> nlen file < N.of_nat fuel ->
+  let ps := page_walk read_range fuel file 0 maxb in
+  concat (map pg_content ps) = file /\ sumN (map pg_bytes ps) = nlen file.
+Proof. exact pages_reassemble. Qed.
+Print Assumptions c17_pages_reassemble.
+
+Example c17_pages_reassemble_hyp :
+  utf8_ok s12_file = true /\ 4 <= 4 /\ nlen s12_file < N.of_nat 20
+  /\ map pg_bytes (page_walk read_range 20 s12_file 0 4) = [3; 4].
+Proof. exact pages_hyp_example. Qed.
+
+(* for EVERY log (binary included) and every max_bytes >= 1 the pages' byte ranges tile the log *)
+Theorem c17_pages_tile_any_file : forall (file : bytes) (maxb : N) (fuel : nat),
+  1 <= maxb -> nlen file < N.of_nat fuel ->
+  sumN (map pg_bytes (page_walk read_range fuel file 0 maxb)) = nlen file.
+Proof. exact pages_tile_any_file. Qed.
+Print Assumptions c17_pages_tile_any_file.
+
+(* the shell tool's inline preview of valid UTF-8 output is exactly a byte prefix of the output
+   (never an invented U+FFFD), also when the limit falls inside a character (S19 repaired) *)
+Theorem c17_shell_preview_exact : forall (pmax : N) (out : bytes),
+  utf8_ok out = true ->
+  let pv := shell_preview (take pmax out) (pmax <? nlen out) in
+  lossy pv = pv /\ exists rest, out = pv ++ rest.
+Proof. exact shell_preview_exact. Qed.
+Print Assumptions c17_shell_preview_exact.
+
+Example c17_shell_preview_hyp :
+  utf8_ok s19_out = true /\ shell_preview (take 3 s19_out) (3 <? nlen s19_out) = [195; 169].
+Proof. exact shell_preview_example. Qed.
+
 (* ---------------- lifecycle ----------------
    `run sched` executes ANY list of actions of the waiter, the two output pumps, the child and cancel
    requests (disabled actions are skipped, so every list is a schedule: every interleaving, a cancel
